@@ -13,6 +13,7 @@ import (
 	"github.com/ethereum/go-ethereum/p2p/enode"
 	"github.com/ethereum/go-ethereum/rlp"
 	"github.com/zen-eth/shisui/portalwire"
+	pingext "github.com/zen-eth/shisui/portalwire/ping_ext"
 )
 
 // C01 — no remote input can crash or wedge the node.
@@ -311,6 +312,34 @@ func c01TalkPayload(rs *prng, vecs []vector, netName string, kind int) []byte {
 	switch rs.intn(4) {
 	case 0:
 		valid = encPing(uint64(rs.intn(5)), []uint16{0, 1, 2, 65535, 7}[rs.intn(5)], encRadiusPayload(uint16(rs.intn(3)), maxU256))
+		if rs.chance(50) {
+			// a well-formed client-info payload advertising an unusual capability list (none, unknown ones
+			// only, the error type only, very many): the node caches it and consults it when it pings back
+			var caps []uint16
+			switch rs.intn(6) {
+			case 0:
+			case 1:
+				caps = []uint16{65535}
+			case 2:
+				caps = []uint16{0, 65535}
+			case 3:
+				caps = []uint16{9, 77, 4000}
+			case 4:
+				for i := 0; i < 300+rs.intn(200); i++ {
+					caps = append(caps, uint16(rs.intn(65536)))
+				}
+			default:
+				caps = []uint16{uint16(rs.intn(4)), uint16(rs.intn(65536))}
+			}
+			var rb [32]byte
+			for i := range rb {
+				rb[i] = 0xff
+			}
+			pl := pingext.NewClientInfoAndCapabilitiesPayload(rb[:], caps)
+			if b, err := pl.MarshalSSZ(); err == nil {
+				valid = encPing(uint64(rs.intn(5)), 0, b)
+			}
+		}
 	case 1:
 		valid = encFindNodes(c11Distances(int64(rs.intn(9)), rs))
 	case 2:
